@@ -1,7 +1,1778 @@
-//! C14 harness (stub until built)
+//! C14: layout trivia never changes results and diagnostics track source positions.
+//!
+//! requests
+//!   C14.locate \t <files> \t <raw location>
+//!       observe: `<file index>:<offset> <name>:<line>:<col>` | `none <unknown>`   (real SourceManager)
+//!   C14.srcloc \t <files> \t <file index> \t <offset>
+//!       observe: `ok:<raw>` | `panic`                      (get_source_location_from_file_offset)
+//!   C14.render \t <files> \t <raw location> \t <error|note> \t <hex message>
+//!       observe: `ok:<hex of the rendered text>` | `panic`  (MessagePrinter::write_message)
+//!   C14.meta \t <tgt> \t <all|nopipeline> \t <files> \t <edited file index> \t <edits> \t <base> \t <track> \t <tag>
+//!       files : `hexname:hexcontents,...` (first = entry file);  edits: `off:hextext;...` insertions in
+//!               original coordinates, ascending;  base: verdict of the unedited program
+//!               (`ok` | `err:-` | `err:<file>:<offset>` | `err:?` | `panic`), recomputed on every run;
+//!               track: `y` when the property's oracle held (the model predicts the position then);
+//!               tag: free text describing where the case came from (ignored)
+//!       observe: `ok` | `err -` | `err <name>:<line>:<col>` | `err ?` | `panic <site>` for the edited program
+//!   C14.disk \t <tgt> \t <root>|<entry> \t <file name> \t <edits> \t <base> \t <track> \t <tag>
+//!       the same on one of the repository's own multi-file inputs (files are read from disk)
+//! oracle (property's own words, independent of the Lean model):
+//!   accepted program: the edited program is accepted with byte-identical source, stages, metadata;
+//!   rejected program: the edited program is rejected and its rendered diagnostic is the original one
+//!   with every position replaced by the position of the same byte in the edited text (for k inserted
+//!   lines: line + k, same column, same message, same file name; other files untouched); every
+//!   diagnostic names a loaded file and shows that file's own line.
+use crate::compile_util::*;
+use crate::progen::*;
 use crate::util::*;
+use rssl::text::tokens::Token;
+use rssl::text::{Locate, LocateEnd, SourceLocation, SourceManager, StreamLocation};
 
-pub fn run(_args: &Args, _out: &mut Out) {
-    eprintln!("C14: harness not built yet");
-    std::process::exit(2);
+// ------------------------------------------------------------------------------------------------
+// encodings
+// ------------------------------------------------------------------------------------------------
+
+type Files = Vec<(String, String)>;
+type Edits = Vec<(usize, String)>;
+
+fn enc_files(files: &Files) -> String {
+    if files.is_empty() {
+        return "-".into();
+    }
+    files.iter().map(|(n, c)| format!("{}:{}", hex(n.as_bytes()), hex(c.as_bytes()))).collect::<Vec<_>>().join(",")
+}
+
+fn dec_files(s: &str) -> Option<Files> {
+    if s == "-" {
+        return Some(Vec::new());
+    }
+    let mut out = Vec::new();
+    for item in s.split(',') {
+        let (n, c) = item.split_once(':')?;
+        out.push((String::from_utf8(unhex(n)?).ok()?, String::from_utf8(unhex(c)?).ok()?));
+    }
+    Some(out)
+}
+
+fn enc_edits(e: &Edits) -> String {
+    if e.is_empty() {
+        return "-".into();
+    }
+    e.iter().map(|(p, t)| format!("{}:{}", p, hex(t.as_bytes()))).collect::<Vec<_>>().join(";")
+}
+
+fn dec_edits(s: &str) -> Option<Edits> {
+    if s == "-" {
+        return Some(Vec::new());
+    }
+    let mut out = Vec::new();
+    for item in s.split(';') {
+        let (p, t) = item.split_once(':')?;
+        out.push((p.parse().ok()?, String::from_utf8(unhex(t)?).ok()?));
+    }
+    Some(out)
+}
+
+/// insertions in original coordinates (ascending); equal offsets keep list order
+fn apply_edits(text: &str, edits: &Edits) -> String {
+    let mut out = String::with_capacity(text.len() + 64);
+    let mut at = 0usize;
+    for (p, t) in edits {
+        let p = (*p).min(text.len());
+        out.push_str(&text[at..p]);
+        out.push_str(t);
+        at = p;
+    }
+    out.push_str(&text[at..]);
+    out
+}
+
+/// where byte `q` of the old text is after the insertions (text at an insertion point moves right)
+fn move_through(edits: &Edits, q: usize) -> usize {
+    q + edits.iter().filter(|(p, _)| *p <= q).map(|(_, t)| t.len()).sum::<usize>()
+}
+
+// ------------------------------------------------------------------------------------------------
+// independent position arithmetic (the oracle's own)
+// ------------------------------------------------------------------------------------------------
+
+/// 1-based line and column of a byte offset: lines end at '\n', columns count bytes
+fn line_col(text: &str, off: usize) -> (usize, usize) {
+    let b = text.as_bytes();
+    let mut line = 1;
+    let mut last_nl: Option<usize> = None;
+    for (i, c) in b.iter().enumerate().take(off) {
+        if *c == b'\n' {
+            line += 1;
+            last_nl = Some(i);
+        }
+    }
+    let col = match last_nl {
+        Some(i) => off - i,
+        None => off + 1,
+    };
+    (line, col)
+}
+
+fn offset_of(text: &str, line: usize, col: usize) -> Option<usize> {
+    if line == 0 || col == 0 {
+        return None;
+    }
+    let b = text.as_bytes();
+    let mut start = 0usize;
+    let mut cur = 1usize;
+    while cur < line {
+        let nl = b[start..].iter().position(|c| *c == b'\n')?;
+        start += nl + 1;
+        cur += 1;
+    }
+    let off = start + col - 1;
+    // the position must lie on that line (or be its end)
+    let line_end = b[start..].iter().position(|c| *c == b'\n').map(|n| start + n).unwrap_or(b.len());
+    if off <= line_end { Some(off) } else { None }
+}
+
+fn line_text(text: &str, off: usize) -> String {
+    let b = text.as_bytes();
+    let off = off.min(b.len());
+    let start = b[..off].iter().rposition(|c| *c == b'\n').map(|i| i + 1).unwrap_or(0);
+    let end = b[off..].iter().position(|c| *c == b'\n').map(|n| off + n).unwrap_or(b.len());
+    String::from_utf8_lossy(&b[start..end]).into_owned()
+}
+
+// ------------------------------------------------------------------------------------------------
+// rendered diagnostics
+// ------------------------------------------------------------------------------------------------
+
+#[derive(Clone, Debug, PartialEq)]
+struct Block {
+    loc: Option<(String, usize, usize)>,
+    sev: String,
+    msg: String,
+    /// source line and caret line
+    src: Option<(String, String)>,
+}
+
+fn split_header(line: &str) -> Option<(Option<(String, usize, usize)>, String, String)> {
+    let mut best: Option<(usize, &str)> = None;
+    for sev in ["error", "note"] {
+        let pat = format!(": {}: ", sev);
+        if let Some(pos) = line.find(&pat) {
+            if best.map(|(p, _)| pos < p).unwrap_or(true) {
+                best = Some((pos, sev));
+            }
+        }
+    }
+    if let Some((pos, sev)) = best {
+        let prefix = &line[..pos];
+        let msg = line[pos + sev.len() + 4..].to_string();
+        let mut it = prefix.rsplitn(3, ':');
+        let (c, l, f) = (it.next(), it.next(), it.next());
+        if let (Some(c), Some(l), Some(f)) = (c, l, f) {
+            if let (Ok(c), Ok(l)) = (c.parse::<usize>(), l.parse::<usize>()) {
+                return Some((Some((f.to_string(), l, c)), sev.to_string(), msg));
+            }
+        }
+    }
+    for sev in ["error", "note"] {
+        if let Some(m) = line.strip_prefix(&format!("{}: ", sev)) {
+            return Some((None, sev.to_string(), m.to_string()));
+        }
+    }
+    None
+}
+
+/// Parse the text produced by `CompileErrorPrinter`; `None` when it is not a sequence of messages
+fn parse_diag(s: &str) -> Option<Vec<Block>> {
+    let mut lines: Vec<&str> = s.split('\n').collect();
+    if lines.last() == Some(&"") {
+        lines.pop();
+    } else {
+        return None;
+    }
+    let mut out = Vec::new();
+    let mut i = 0;
+    while i < lines.len() {
+        let (loc, sev, msg) = split_header(lines[i])?;
+        i += 1;
+        let src = if loc.is_some() {
+            if i + 1 < lines.len() {
+                let r = (lines[i].to_string(), lines[i + 1].to_string());
+                i += 2;
+                Some(r)
+            } else {
+                return None;
+            }
+        } else {
+            None
+        };
+        out.push(Block { loc, sev, msg, src });
+    }
+    if out.is_empty() { None } else { Some(out) }
+}
+
+fn render_block(b: &Block) -> String {
+    let mut s = String::new();
+    if let Some((f, l, c)) = &b.loc {
+        s.push_str(&format!("{}:{}:{}: ", f, l, c));
+    }
+    s.push_str(&format!("{}: {}\n", b.sev, b.msg));
+    if let Some((a, c)) = &b.src {
+        s.push_str(a);
+        s.push('\n');
+        s.push_str(c);
+        s.push('\n');
+    }
+    s
+}
+
+fn file_index(files: &Files, name: &str) -> Option<usize> {
+    files.iter().position(|(n, _)| n == name)
+}
+
+/// Check that a diagnostic is consistent with the files it names, and give the (file, offset) of each block
+fn diag_positions(blocks: &[Block], files: &Files) -> Result<Vec<Option<(usize, usize)>>, String> {
+    let mut out = Vec::new();
+    for b in blocks {
+        match &b.loc {
+            None => out.push(None),
+            Some((f, l, c)) => {
+                let Some(fi) = file_index(files, f) else {
+                    return Err(format!("[diagnostic names a file that was never loaded] '{}' ({}: {})", f, b.sev, b.msg));
+                };
+                let Some(off) = offset_of(&files[fi].1, *l, *c) else {
+                    return Err(format!("[diagnostic position outside its file] {}:{}:{} ({})", f, l, c, b.msg));
+                };
+                if let Some((src, caret)) = &b.src {
+                    let want = line_text(&files[fi].1, off);
+                    if *src != want {
+                        return Err(format!("[diagnostic shows a different source line] {}:{}:{} shows {:?}, the file has {:?}", f, l, c, src, want));
+                    }
+                    let want_caret = format!("{}^", " ".repeat(c - 1));
+                    if *caret != want_caret {
+                        return Err(format!("[caret not under the column] {}:{}:{} caret {:?}", f, l, c, caret));
+                    }
+                }
+                out.push(Some((fi, off)));
+            }
+        }
+    }
+    Ok(out)
+}
+
+/// The diagnostic the edited program must produce: same messages, every position replaced by the
+/// position of the same byte of the edited text
+fn expected_diag(blocks: &[Block], pos: &[Option<(usize, usize)>], new_files: &Files, edited: usize, edits: &Edits) -> String {
+    let mut s = String::new();
+    for (b, p) in blocks.iter().zip(pos) {
+        match p {
+            None => s.push_str(&render_block(b)),
+            Some((fi, off)) => {
+                let noff = if *fi == edited { move_through(edits, *off) } else { *off };
+                let text = &new_files[*fi].1;
+                let (l, c) = line_col(text, noff);
+                let nb = Block {
+                    loc: Some((new_files[*fi].0.clone(), l, c)),
+                    sev: b.sev.clone(),
+                    msg: b.msg.clone(),
+                    src: b.src.as_ref().map(|_| (line_text(text, noff), format!("{}^", " ".repeat(c - 1)))),
+                };
+                s.push_str(&render_block(&nb));
+            }
+        }
+    }
+    s
+}
+
+// ------------------------------------------------------------------------------------------------
+// tokens and insertion points (from the real lexer)
+// ------------------------------------------------------------------------------------------------
+
+#[derive(Clone, Debug, PartialEq)]
+enum K {
+    Ws,
+    Endline,
+    Splice,
+    LineComment,
+    BlockComment,
+    Hash,
+    Id(String),
+    LAngle,
+    RAngle,
+    LParen,
+    RParen,
+    Slash,
+    Str,
+    Other(String),
+}
+
+impl K {
+    fn is_ws(&self) -> bool {
+        matches!(self, K::Ws | K::Endline | K::Splice | K::LineComment | K::BlockComment)
+    }
+    fn name(&self) -> String {
+        match self {
+            K::Ws => "ws".into(),
+            K::Endline => "endline".into(),
+            K::Splice => "splice".into(),
+            K::LineComment => "linecomment".into(),
+            K::BlockComment => "blockcomment".into(),
+            K::Hash => "hash".into(),
+            K::Id(_) => "id".into(),
+            K::LAngle => "langle".into(),
+            K::RAngle => "rangle".into(),
+            K::LParen => "lparen".into(),
+            K::RParen => "rparen".into(),
+            K::Slash => "slash".into(),
+            K::Str => "string".into(),
+            K::Other(s) => s.clone(),
+        }
+    }
+}
+
+#[derive(Clone, Debug)]
+struct Tok {
+    k: K,
+    start: usize,
+    end: usize,
+}
+
+fn short_token_name(t: &Token) -> String {
+    let d = format!("{:?}", t);
+    let head: String = d.chars().take_while(|c| c.is_ascii_alphanumeric()).collect();
+    if head.starts_with("Literal") { "literal".into() } else { head.to_lowercase() }
+}
+
+/// Token spans of a file from the real lexer (no directive handling); None when the file does not lex
+fn lex_file(text: &str) -> Option<Vec<Tok>> {
+    let r = guard(|| rssl_preprocess::verif::lex(text, SourceLocation::first(), false));
+    let toks = match r {
+        Ok(Ok(t)) => t,
+        _ => return None,
+    };
+    let mut out = Vec::new();
+    for t in &toks {
+        let start = t.get_location().get_raw() as usize;
+        let end = t.get_end_location().get_raw() as usize;
+        let k = match &t.0 {
+            Token::Whitespace => K::Ws,
+            Token::Endline => K::Endline,
+            Token::PhysicalEndline => K::Splice,
+            Token::Comment => {
+                if text[start..].starts_with("//") { K::LineComment } else { K::BlockComment }
+            }
+            Token::Hash => K::Hash,
+            Token::Id(id) => K::Id(id.0.clone()),
+            Token::LeftAngleBracket(_) => K::LAngle,
+            Token::RightAngleBracket(_) => K::RAngle,
+            Token::LeftParen => K::LParen,
+            Token::RightParen => K::RParen,
+            Token::ForwardSlash => K::Slash,
+            Token::LiteralString(_) => K::Str,
+            other => K::Other(short_token_name(other)),
+        };
+        out.push(Tok { k, start, end });
+    }
+    Some(out)
+}
+
+/// names of the function-like macros a file defines (`#define NAME(`)
+fn fn_macro_names(toks: &[Tok]) -> Vec<String> {
+    let mut out = Vec::new();
+    for i in 0..toks.len() {
+        if toks[i].k == K::Id("define".into()) && i >= 1 {
+            // # [ws] define ws NAME (
+            let mut j = i + 1;
+            while j < toks.len() && matches!(toks[j].k, K::Ws | K::BlockComment | K::Splice) {
+                j += 1;
+            }
+            if let (Some(Tok { k: K::Id(name), .. }), Some(next)) = (toks.get(j), toks.get(j + 1)) {
+                if next.k == K::LParen {
+                    out.push(name.clone());
+                }
+            }
+        }
+    }
+    out
+}
+
+fn all_fn_macros(files: &Files) -> Vec<String> {
+    let mut out = Vec::new();
+    for (_, text) in files {
+        if let Some(t) = lex_file(text) {
+            out.extend(fn_macro_names(&t));
+        }
+    }
+    out.sort();
+    out.dedup();
+    out
+}
+
+#[derive(Clone, Debug)]
+struct Boundary {
+    off: usize,
+    /// trivia containing a logical line break may be inserted here
+    newline_ok: bool,
+    /// a comment must be separated from the preceding `/`
+    after_slash: bool,
+    /// the previous token is a real end of line (or this is offset 0): a place to insert whole lines
+    line_start: bool,
+    /// `prev>next` kinds plus flags, for the statistics and the finding keys
+    ctx: String,
+}
+
+/// Insertion points of a file under the rules of the property: every token boundary except directly
+/// after `<` / `>`, between a macro name and `(` in a `#define`, after a line comment (the text would
+/// join the comment) and inside the argument of `#include`; directive lines take no line breaks.
+fn boundaries(text: &str, toks: &[Tok], known_fn_macros: &[String]) -> Vec<Boundary> {
+    let n = toks.len();
+    // directive membership, `#define` name positions and function-like macro names
+    let mut in_dir = vec![false; n];
+    let mut dir_name: Vec<Option<String>> = vec![None; n];
+    let mut fn_macros: Vec<String> = known_fn_macros.to_vec();
+    let mut define_name_tok: Vec<bool> = vec![false; n];
+    let mut include_arg: Vec<bool> = vec![false; n];
+    {
+        #[derive(PartialEq)]
+        enum S {
+            StartOfLine,
+            CommandStart,
+            CommandContents,
+            Normal,
+        }
+        let mut st = S::StartOfLine;
+        let mut cur_dir: Option<String> = None;
+        let mut seen_after_name = 0usize;
+        for i in 0..n {
+            let k = &toks[i].k;
+            match (k, &st) {
+                (K::Endline, S::CommandContents) | (K::Endline, S::CommandStart) => {
+                    in_dir[i] = true;
+                    dir_name[i] = cur_dir.clone();
+                    st = S::StartOfLine;
+                    cur_dir = None;
+                }
+                (K::Endline, _) => st = S::StartOfLine,
+                (K::Hash, S::StartOfLine) => {
+                    st = S::CommandStart;
+                    in_dir[i] = true;
+                    cur_dir = Some(String::new());
+                    seen_after_name = 0;
+                }
+                (k, S::CommandStart) => {
+                    in_dir[i] = true;
+                    if !k.is_ws() {
+                        st = S::CommandContents;
+                        cur_dir = Some(match k {
+                            K::Id(s) => s.clone(),
+                            K::Other(s) => s.clone(),
+                            k => k.name(),
+                        });
+                    }
+                    dir_name[i] = cur_dir.clone();
+                }
+                (k, S::CommandContents) => {
+                    in_dir[i] = true;
+                    dir_name[i] = cur_dir.clone();
+                    if !k.is_ws() {
+                        seen_after_name += 1;
+                        if cur_dir.as_deref() == Some("define") && seen_after_name == 1 {
+                            define_name_tok[i] = true;
+                            if let (K::Id(name), Some(next)) = (k, toks.get(i + 1)) {
+                                if next.k == K::LParen {
+                                    fn_macros.push(name.clone());
+                                }
+                            }
+                        }
+                    }
+                    if cur_dir.as_deref() == Some("include") && seen_after_name >= 1 {
+                        include_arg[i] = true;
+                    }
+                }
+                (k, S::StartOfLine) => {
+                    if !k.is_ws() {
+                        st = S::Normal;
+                    }
+                }
+                _ => {}
+            }
+        }
+    }
+    // gaps between a function-like macro name and the `(` of an invocation; argument lists
+    let mut call_gap = vec![false; n + 1]; // indexed by boundary = index of the next token
+    let mut in_args = vec![false; n + 1];
+    let mut empty_args = vec![false; n + 1];
+    for i in 0..n {
+        if in_dir[i] {
+            continue;
+        }
+        if let K::Id(name) = &toks[i].k {
+            if fn_macros.contains(name) {
+                let mut j = i + 1;
+                while j < n && toks[j].k.is_ws() {
+                    j += 1;
+                }
+                if j < n && toks[j].k == K::LParen {
+                    for b in (i + 1)..=j {
+                        call_gap[b] = true;
+                    }
+                    let mut depth = 0i32;
+                    let mut m = j;
+                    while m < n {
+                        match toks[m].k {
+                            K::LParen => depth += 1,
+                            K::RParen => {
+                                depth -= 1;
+                                if depth == 0 {
+                                    break;
+                                }
+                            }
+                            _ => {}
+                        }
+                        m += 1;
+                    }
+                    let empty = m < n && toks[j + 1..m].iter().all(|t| t.k.is_ws());
+                    for b in (j + 1)..=m.min(n) {
+                        in_args[b] = true;
+                        if empty {
+                            empty_args[b] = true;
+                        }
+                    }
+                }
+            }
+        }
+    }
+    let mut out = Vec::new();
+    for b in 0..=n {
+        let prev = if b > 0 { Some(&toks[b - 1]) } else { None };
+        let next = toks.get(b);
+        let off = match (prev, next) {
+            (_, Some(t)) => t.start,
+            (Some(p), None) => p.end,
+            (None, None) => 0,
+        };
+        if let Some(p) = prev {
+            if matches!(p.k, K::LAngle | K::RAngle | K::LineComment) {
+                continue;
+            }
+            // zero-width tokens do not occur, but never insert inside a token
+            if p.end != off {
+                continue;
+            }
+            if define_name_tok[b - 1] && next.map(|t| t.k == K::LParen).unwrap_or(false) {
+                continue;
+            }
+            if include_arg[b - 1] {
+                continue;
+            }
+        }
+        let dir = prev.map(|p| in_dir[b - 1] && p.k != K::Endline).unwrap_or(false);
+        let line_start = prev.map(|p| p.k == K::Endline).unwrap_or(true);
+        let mut ctx = format!(
+            "{}>{}",
+            prev.map(|p| p.k.name()).unwrap_or_else(|| "start".into()),
+            next.map(|t| t.k.name()).unwrap_or_else(|| "end".into())
+        );
+        if dir {
+            let d = dir_name[b - 1].clone().unwrap_or_default();
+            ctx.push_str(&format!(" dir:{}", if d.is_empty() { "(before-name)" } else { d.as_str() }));
+        }
+        if call_gap[b] {
+            ctx.push_str(" macro-call-gap");
+        } else if empty_args[b] {
+            ctx.push_str(" macro-args-empty");
+        } else if in_args[b] {
+            ctx.push_str(" macro-args");
+        }
+        out.push(Boundary {
+            off,
+            newline_ok: !dir,
+            after_slash: prev.map(|p| p.k == K::Slash).unwrap_or(false),
+            line_start,
+            ctx,
+        });
+    }
+    let _ = text;
+    out
+}
+
+const TRIVIA_INLINE: &[(&str, &[&str])] = &[
+    ("space", &[" ", "  ", "    "]),
+    ("tab", &["\t", "\t\t"]),
+    ("block-comment", &["/* c */", "/**/", "/* a * b / c // d */"]),
+    ("splice", &["\\\n", "\\\r\n", " \\\n "]),
+    ("mixed-inline", &[" /* c */\t", "\t/**/ "]),
+];
+const TRIVIA_NEWLINE: &[(&str, &[&str])] = &[
+    ("newline", &["\n", "\n\n", "\r\n"]),
+    ("line-comment", &["// note\n", "//\n", " // a /* b\n"]),
+    ("block-comment-multiline", &["/* l1\n   l2 */", "/*\n*/"]),
+    ("mixed-newline", &[" // c\n\t/* d */ \n"]),
+];
+
+fn pick_trivia(rng: &mut Rng, b: &Boundary) -> (String, String) {
+    let use_nl = b.newline_ok && rng.chance(1, 2);
+    let table = if use_nl { TRIVIA_NEWLINE } else { TRIVIA_INLINE };
+    let (class, texts) = rng.pick(table);
+    let mut t = rng.pick(texts).to_string();
+    if b.after_slash && t.starts_with('/') {
+        t.insert(0, ' ');
+    }
+    (class.to_string(), t)
+}
+
+fn pad_lines(rng: &mut Rng, k: usize) -> String {
+    let mut s = String::new();
+    for i in 0..k {
+        match rng.below(5) {
+            0 => s.push_str(&format!("// padding line {}", i)),
+            1 => s.push_str("   "),
+            2 => s.push_str("/* pad */"),
+            3 => s.push_str("\t// x"),
+            _ => {}
+        }
+        s.push('\n');
+    }
+    s
+}
+
+// ------------------------------------------------------------------------------------------------
+// the metamorphic case
+// ------------------------------------------------------------------------------------------------
+
+fn parse_mode(s: &str) -> Option<Mode> {
+    match s {
+        "all" => Some(Mode::All),
+        "nopipeline" => Some(Mode::NoPipeline),
+        _ => None,
+    }
+}
+
+fn compile_files(files: &Files, tgt: Tgt, mode: &Mode) -> CompileOutcome {
+    compile(&Job { entry: &files[0].0, files, defines: &[], target: tgt, mode: mode.clone(), validate_layout: false })
+}
+
+struct Verdict {
+    /// value of the `base` request field
+    base: String,
+    /// observation string for an outcome
+    obs: String,
+}
+
+fn first_header(e: &str, files: &Files) -> (String, String) {
+    match parse_diag(e) {
+        None => ("err:?".into(), "err ?".into()),
+        Some(blocks) => match &blocks[0].loc {
+            None => ("err:-".into(), "err -".into()),
+            Some((f, l, c)) => {
+                let obs = format!("err {}:{}:{}", f, l, c);
+                match file_index(files, f).and_then(|fi| offset_of(&files[fi].1, *l, *c).map(|o| (fi, o))) {
+                    Some((fi, o)) => (format!("err:{}:{}", fi, o), obs),
+                    None => ("err:?".into(), obs),
+                }
+            }
+        },
+    }
+}
+
+fn verdict(o: &CompileOutcome, files: &Files) -> Verdict {
+    match o {
+        CompileOutcome::Ok(_) => Verdict { base: "ok".into(), obs: "ok".into() },
+        CompileOutcome::Err(e) => {
+            let (base, obs) = first_header(e, files);
+            Verdict { base, obs }
+        }
+        CompileOutcome::Panic(p) => Verdict { base: "panic".into(), obs: format!("panic {}", p) },
+    }
+}
+
+fn clip(s: &str, n: usize) -> String {
+    let t: String = s.chars().take(n).collect();
+    one_line(&t)
+}
+
+/// The property's oracle for one edit of one file. `ctxs` describes the insertion points (for the
+/// failure text). Returns Ok(()) or the failure detail.
+fn judge(
+    files: &Files,
+    new_files: &Files,
+    edited: usize,
+    edits: &Edits,
+    base: &CompileOutcome,
+    after: &CompileOutcome,
+    lines_mode: Option<(usize, usize)>,
+) -> Result<(), String> {
+    match (base, after) {
+        (CompileOutcome::Ok(a), CompileOutcome::Ok(b)) => {
+            if a == b {
+                Ok(())
+            } else if a.len() != b.len() {
+                Err(format!("output-changed: accepted program: {} pipelines became {}", a.len(), b.len()))
+            } else {
+                let i = (0..a.len()).find(|i| a[*i] != b[*i]).unwrap();
+                let what = if a[i].data != b[i].data {
+                    "emitted source"
+                } else if a[i].stages != b[i].stages {
+                    "stages"
+                } else if a[i].metadata != b[i].metadata {
+                    "metadata"
+                } else {
+                    "pipeline state"
+                };
+                Err(format!("output-changed: accepted program: {} of pipeline {} changed", what, i))
+            }
+        }
+        (CompileOutcome::Ok(_), CompileOutcome::Err(e)) => Err(format!("accepted-now-rejected: {}", clip(e, 160))),
+        (CompileOutcome::Err(e), CompileOutcome::Ok(_)) => Err(format!("rejected-now-accepted: was {}", clip(e, 160))),
+        (CompileOutcome::Panic(a), CompileOutcome::Panic(b)) => {
+            if a == b { Ok(()) } else { Err(format!("panic-changed: {} -> {}", a, b)) }
+        }
+        (CompileOutcome::Panic(a), _) => Err(format!("panic-changed: program that panicked ({}) no longer does", a)),
+        (_, CompileOutcome::Panic(b)) => Err(format!("panic {}", b)),
+        (CompileOutcome::Err(e0), CompileOutcome::Err(e1)) => {
+            let Some(blocks) = parse_diag(e0) else {
+                // not a positioned diagnostic (e.g. "Shader does not contain a single pipeline")
+                return if e0 == e1 { Ok(()) } else { Err(format!("diagnostic-changed: error text changed: {} -> {}", clip(e0, 100), clip(e1, 100))) };
+            };
+            let pos = diag_positions(&blocks, files)?;
+            let want = expected_diag(&blocks, &pos, new_files, edited, edits);
+            if *e1 != want {
+                let got_blocks = parse_diag(e1);
+                let what = match &got_blocks {
+                    Some(g) if g.len() == blocks.len() => {
+                        let mut w = String::from("diagnostic text");
+                        for (a, b) in blocks.iter().zip(g) {
+                            if a.msg != b.msg || a.sev != b.sev {
+                                w = "message".into();
+                                break;
+                            }
+                            if a.loc.as_ref().map(|l| &l.0) != b.loc.as_ref().map(|l| &l.0) {
+                                w = "file name".into();
+                                break;
+                            }
+                        }
+                        if w == "diagnostic text" { "position".into() } else { w }
+                    }
+                    _ => "structure".to_string(),
+                };
+                return Err(format!("diagnostic-{}-wrong: got {} expected {}", what.replace(' ', "-"), clip(e1, 200), clip(&want, 200)));
+            }
+            // the property's own wording for inserted lines: line + k, same column, message and file
+            if let Some((p, k)) = lines_mode {
+                let got = parse_diag(e1).ok_or_else(|| "diagnostic of the edited program does not parse".to_string())?;
+                if got.len() != blocks.len() {
+                    return Err("diagnostic-structure-wrong: number of messages changed".into());
+                }
+                for ((a, b), q) in blocks.iter().zip(&got).zip(&pos) {
+                    if a.msg != b.msg || a.sev != b.sev {
+                        return Err(format!("diagnostic-message-wrong: {} -> {}", a.msg, b.msg));
+                    }
+                    match (&a.loc, &b.loc, q) {
+                        (Some((f0, l0, c0)), Some((f1, l1, c1)), Some((fi, off))) => {
+                            let shift = if *fi == edited && *off >= p { k } else { 0 };
+                            if f0 != f1 || c0 != c1 || *l1 != *l0 + shift {
+                                return Err(format!("diagnostic-position-wrong: inserted {} lines: {}:{}:{} became {}:{}:{}", k, f0, l0, c0, f1, l1, c1));
+                            }
+                        }
+                        (None, None, _) => {}
+                        _ => return Err("diagnostic-structure-wrong: a message gained or lost its position".into()),
+                    }
+                }
+            }
+            Ok(())
+        }
+    }
+}
+
+struct MetaResult {
+    request: String,
+    obs: String,
+    oracle: String,
+    failed: bool,
+}
+
+/// Run one metamorphic case. `describe` maps an edit list to the description of its insertion points.
+fn run_meta_files(
+    op_prefix: &str,
+    files: &Files,
+    edited: usize,
+    edits: &Edits,
+    tag: &str,
+    compile_fn: &dyn Fn(&Files) -> CompileOutcome,
+    base: &CompileOutcome,
+    lines_mode: Option<(usize, usize)>,
+    ctx_of: &dyn Fn(&Edits) -> String,
+) -> MetaResult {
+    let mut new_files = files.clone();
+    new_files[edited].1 = apply_edits(&files[edited].1, edits);
+    let after = compile_fn(&new_files);
+    let v0 = verdict(base, files);
+    let v1 = verdict(&after, &new_files);
+    let mut judged = judge(files, &new_files, edited, edits, base, &after, lines_mode);
+    let mut culprit = edits.clone();
+    if judged.is_err() && edits.len() > 1 {
+        // find a single insertion that is enough to break the property (keys and reports name one place)
+        for e in edits {
+            let one = vec![e.clone()];
+            let mut nf = files.clone();
+            nf[edited].1 = apply_edits(&files[edited].1, &one);
+            let a = compile_fn(&nf);
+            if let Err(d) = judge(files, &nf, edited, &one, base, &a, None) {
+                judged = Err(d);
+                culprit = one;
+                break;
+            }
+        }
+    }
+    let (oracle, failed) = match &judged {
+        Ok(()) => ("ok".to_string(), false),
+        Err(d) => {
+            let d = if d.starts_with('[') { d.clone() } else { format!("[{}] {}", ctx_of(&culprit), d) };
+            (format!("FAIL:{}", d), true)
+        }
+    };
+    let request = format!(
+        "{}\t{}\t{}\t{}\t{}\t{}",
+        op_prefix,
+        edited_field(op_prefix, files, edited),
+        enc_edits(edits),
+        v0.base,
+        if failed { "n" } else { "y" },
+        tag
+    );
+    MetaResult { request, obs: v1.obs, oracle, failed }
+}
+
+/// a case without an edit: the diagnostic of the program itself must be at the given place
+fn run_anchor(prefix: &str, files: &Files, base: &CompileOutcome, anchor: (usize, usize, usize), tag: &str) -> MetaResult {
+    let v = verdict(base, files);
+    let judged = anchor_check(files, base, anchor);
+    let (oracle, failed) = match &judged {
+        Ok(()) => ("ok".to_string(), false),
+        Err(d) => (format!("FAIL:{}", d), true),
+    };
+    let request = format!("{}\t{}\t-\t{}\t{}\t{}", prefix, anchor.0, v.base, if failed { "n" } else { "y" }, tag);
+    MetaResult { request, obs: v.obs, oracle, failed }
+}
+
+fn edited_field(op_prefix: &str, files: &Files, edited: usize) -> String {
+    if op_prefix.starts_with("C14.disk") { files[edited].0.clone() } else { format!("{}", edited) }
+}
+
+/// description of the insertion points of an edit list: class of the inserted text and token context
+fn describe_edits(text: &str, edits: &Edits, macros: &[String]) -> String {
+    let Some(toks) = lex_file(text) else { return "unlexable".into() };
+    let bs = boundaries(text, &toks, macros);
+    let mut parts = Vec::new();
+    for (p, t) in edits.iter().take(3) {
+        let ctx = bs.iter().find(|b| b.off == *p).map(|b| b.ctx.clone()).unwrap_or_else(|| "not-a-boundary".into());
+        parts.push(format!("{} at {}", trivia_class(t), ctx));
+    }
+    if edits.len() > 3 {
+        parts.push(format!("+{} more", edits.len() - 3));
+    }
+    parts.join("; ")
+}
+
+fn trivia_class(t: &str) -> &'static str {
+    let has_nl = {
+        // a line break that is not spliced and not inside a block comment
+        let mut i = 0;
+        let b = t.as_bytes();
+        let mut found = false;
+        let mut in_block = false;
+        while i < b.len() {
+            if in_block {
+                if b[i..].starts_with(b"*/") {
+                    in_block = false;
+                    i += 2;
+                    continue;
+                }
+            } else if b[i..].starts_with(b"/*") {
+                in_block = true;
+                i += 2;
+                continue;
+            } else if b[i..].starts_with(b"//") {
+                // up to the line break
+                while i < b.len() && b[i] != b'\n' {
+                    i += 1;
+                }
+                continue;
+            } else if b[i..].starts_with(b"\\\n") {
+                i += 2;
+                continue;
+            } else if b[i..].starts_with(b"\\\r\n") {
+                i += 3;
+                continue;
+            } else if b[i] == b'\n' {
+                found = true;
+            }
+            i += 1;
+        }
+        found
+    };
+    if has_nl {
+        "line-break"
+    } else if t.contains("\\\n") || t.contains("\\\r\n") {
+        "splice"
+    } else if t.contains("/*") && t.contains('\n') {
+        "multi-line-comment"
+    } else if t.contains("/*") {
+        "comment"
+    } else {
+        "blank"
+    }
+}
+
+// ------------------------------------------------------------------------------------------------
+// program sources
+// ------------------------------------------------------------------------------------------------
+
+const INJECT_KINDS: &[&str] = &[
+    "none", "none", "none", "none", "none", "none", "none", "none", "none", "undefined-identifier", "type-mismatch", "missing-semicolon", "unknown-directive",
+    "unknown-type", "bad-call", "missing-include", "unknown-pragma", "macro-body-error", "stray-else",
+    "macro-arity", "concat-undefined", "lexer-error", "unclosed-brace",
+];
+
+/// line starts inside function bodies (after a line ending with `) {`) and at top level (before a
+/// line starting a declaration), as byte offsets
+fn injection_points(text: &str) -> (Vec<usize>, Vec<usize>) {
+    let mut body = Vec::new();
+    let mut top = Vec::new();
+    let mut off = 0usize;
+    let mut depth = 0i32;
+    for line in text.split_inclusive('\n') {
+        let t = line.trim_end();
+        if depth == 0 && !t.is_empty() && !line.starts_with(' ') && !line.starts_with('{') && !line.starts_with('}') && !line.starts_with('#') && !line.starts_with(')') {
+            top.push(off);
+        }
+        for c in line.chars() {
+            match c {
+                '{' => depth += 1,
+                '}' => depth -= 1,
+                _ => {}
+            }
+        }
+        if t.ends_with(") {") && depth == 1 {
+            body.push(off + line.len());
+        }
+        off += line.len();
+    }
+    (body, top)
+}
+
+/// Insert one erroneous construct; returns false when the file has no suitable place
+fn inject(rng: &mut Rng, files: &mut Files, fi: usize, kind: &str) -> bool {
+    let (body, top) = injection_points(&files[fi].1);
+    let n = rng.below(1000);
+    let (at, text): (Option<usize>, String) = match kind {
+        "undefined-identifier" => (pick_opt(rng, &body), format!("    int q{} = not_declared_{} + 1;\n", n, n)),
+        "type-mismatch" => (pick_opt(rng, &body), format!("    float4x4 m{} = float3(1, 2, 3);\n", n)),
+        "missing-semicolon" => (pick_opt(rng, &body), format!("    int q{} = {}\n", n, n)),
+        "unknown-directive" => (pick_opt(rng, &[body.clone(), top.clone()].concat()), format!("#frobnicate {}\n", n)),
+        "unknown-type" => (pick_opt(rng, &top), format!("NoSuchType{} g_bad{};\n", n, n)),
+        "bad-call" => (pick_opt(rng, &body), format!("    float f{} = dot(1.0, 2.0, 3.0, {});\n", n, n)),
+        "missing-include" => (pick_opt(rng, &top), format!("#include \"missing{}.rssl\"\n", n)),
+        "unknown-pragma" => (pick_opt(rng, &top), "#pragma frobnicate all\n".to_string()),
+        "macro-body-error" => {
+            // definition at top level, use inside a function: the diagnostic points into the #define line
+            let Some(t) = pick_opt(rng, &top) else { return false };
+            let Some(b) = pick_opt(rng, &body) else { return false };
+            let (first, second) = if t <= b { (t, b) } else { return false };
+            let s = &mut files[fi].1;
+            s.insert_str(second, &format!("    int q{} = BAD_BODY_{};\n", n, n));
+            s.insert_str(first, &format!("#define BAD_BODY_{} (1 + not_declared_in_macro)\n", n));
+            return true;
+        }
+        "stray-else" => (pick_opt(rng, &top), "#else\n".to_string()),
+        "macro-arity" => {
+            let Some(t) = pick_opt(rng, &top) else { return false };
+            let Some(b) = pick_opt(rng, &body) else { return false };
+            if t > b {
+                return false;
+            }
+            let s = &mut files[fi].1;
+            s.insert_str(b, &format!("    int q{} = TWO_ARGS_{}(1);\n", n, n));
+            s.insert_str(t, &format!("#define TWO_ARGS_{}(a, b) ((a) + (b))\n", n));
+            return true;
+        }
+        "concat-undefined" => {
+            let Some(t) = pick_opt(rng, &top) else { return false };
+            let Some(b) = pick_opt(rng, &body) else { return false };
+            if t > b {
+                return false;
+            }
+            let s = &mut files[fi].1;
+            s.insert_str(b, &format!("    int q{} = GLUE_{}(not_decl, ared_{});\n", n, n, n));
+            s.insert_str(t, &format!("#define GLUE_{}(a, b) a##b\n", n));
+            return true;
+        }
+        "lexer-error" => (pick_opt(rng, &body), format!("    int q{} = 1 $ 2;\n", n)),
+        "unclosed-brace" => (pick_opt(rng, &top), format!("struct Open{} {{ float x;\n", n)),
+        _ => return true,
+    };
+    match at {
+        Some(at) => {
+            files[fi].1.insert_str(at, &text);
+            true
+        }
+        None => false,
+    }
+}
+
+fn pick_opt(rng: &mut Rng, xs: &[usize]) -> Option<usize> {
+    if xs.is_empty() { None } else { Some(*rng.pick(xs)) }
+}
+
+/// hand-written small programs that put the sensitive constructs next to each other
+const SNIPPETS: &[&str] = &[
+    "#define F(x) ((x) + 1)\nint f(int a) {\n    return F(a) + F (a) + F\t(a);\n}\n",
+    "#define Z() 7\n#define PAIR(a, b) a, b\nint g2(int a, int b) { return a + b; }\nint f() {\n    return Z() + g2(PAIR(1, 2));\n}\n",
+    "#define CAT(a, b) a##b\nint f(int xy) {\n    int CAT(v, 1) = xy;\n    return CAT(x, y) + v1;\n}\n",
+    "template<typename T> T ident(T v) { return v; }\nint f(int a) {\n    vector<int, 2> v = int2(a, a);\n    return ident<int>(a) >> 1 << 2 > 3 ? v.x : a >= 2 ? 1 : 0;\n}\n",
+    "#if defined(A) || !defined(B)\nstatic const int k = 1;\n#elif 0\nstatic const int k = 2;\n#else\nstatic const int k = 3;\n#endif\nint f() { return k; }\n",
+    "struct S { float4 a; float b[2]; };\nStructuredBuffer<S> g_s;\nRWTexture2D<float4> g_o;\n[numthreads(8, 8, 1)]\nvoid cs(uint3 id : SV_DispatchThreadID) {\n    S s = g_s[id.x];\n    g_o[id.xy] = s.a * s.b[1] + float4(1.0f, 2., .5, 1e3);\n}\n",
+    "int f(int a) {\n    // line comment ending in a backslash would splice \\ here\n    int b = a /* inline */ + 1;\n    /* multi\n       line */\n    return b--- -a;\n}\n",
+    "#define STR_JOIN(a) a\nstatic const int k = STR_JOIN(\n    1 +\n    2\n);\nint f() { return k; }\n",
+    "#define OBJ (1 + 2)\n#define FN(a) (a * OBJ)\nint f(int x) {\n    int FN = 3;\n    return FN + FN(x);\n}\n",
+    "enum E { A = 1, B = A << 2, C = B >> 1 };\nint f() { return (int)B < (int)C ? 1 : 2; }\n",
+];
+
+struct Source {
+    files: Files,
+    mode: Mode,
+    tag: String,
+    /// the files before the error was injected, and where the diagnostic has to point:
+    /// (file index, lowest and highest admissible offset)
+    clean: Option<Files>,
+    anchor: Option<(usize, usize, usize)>,
+}
+
+/// where the diagnostic of an injected error belongs: the offending token when it is known exactly,
+/// otherwise the injected line (for a missing semicolon the parser stops at the next token)
+fn anchor_of(kind: &str, text: &str) -> Option<(usize, usize)> {
+    let line_of = |m: usize, extra_lines: usize| {
+        let b = text.as_bytes();
+        let lo = b[..m].iter().rposition(|c| *c == b'\n').map(|i| i + 1).unwrap_or(0);
+        let mut hi = m;
+        let mut left = extra_lines + 1;
+        while hi < b.len() {
+            if b[hi] == b'\n' {
+                left -= 1;
+                if left == 0 {
+                    break;
+                }
+            }
+            hi += 1;
+        }
+        (lo, hi)
+    };
+    let (marker, exact, extra) = match kind {
+        "undefined-identifier" => ("not_declared_", true, 0),
+        "unknown-type" => ("NoSuchType", true, 0),
+        "lexer-error" => ("$", true, 0),
+        "macro-body-error" => ("not_declared_in_macro", true, 0),
+        "unknown-directive" => ("#frobnicate", false, 0),
+        "missing-include" => ("#include \"missing", false, 0),
+        "unknown-pragma" => ("#pragma frobnicate", false, 0),
+        "type-mismatch" => ("float4x4 m", false, 0),
+        "bad-call" => ("= dot(1.0, 2.0, 3.0,", false, 0),
+        "missing-semicolon" => ("    int q", false, 1),
+        _ => return None,
+    };
+    let m = text.find(marker)?;
+    if kind == "missing-semicolon" {
+        // the parser stops at the first token after the incomplete statement, wherever that is
+        let (lo, line_end) = line_of(m, 0);
+        let next = lex_file(text)?.iter().find(|t| !t.k.is_ws() && t.start >= line_end).map(|t| t.start)?;
+        return Some((lo, next));
+    }
+    Some(if exact { (m, m) } else { line_of(m, extra) })
+}
+
+fn anchor_message_matches(tag: &str, base: &CompileOutcome) -> bool {
+    let expect = [
+        ("inject:undefined-identifier", "'not_declared_"),
+        ("inject:unknown-type", "'NoSuchType"),
+        ("inject:macro-body-error", "'not_declared_in_macro'"),
+        ("inject:lexer-error", "unexpected characters"),
+        ("inject:unknown-directive", "unknown preprocessing directive"),
+        ("inject:missing-include", "failed to load file: 'missing"),
+        ("inject:unknown-pragma", "unknown pragma"),
+        ("inject:type-mismatch", "float4x4"),
+        ("inject:bad-call", "dot("),
+        ("inject:missing-semicolon", "failed to parse source"),
+    ];
+    let CompileOutcome::Err(e) = base else { return false };
+    let Some(blocks) = parse_diag(e) else { return false };
+    expect.iter().any(|(k, m)| tag.contains(k) && blocks[0].msg.contains(m))
+}
+
+fn anchor_check(files: &Files, base: &CompileOutcome, anchor: (usize, usize, usize)) -> Result<(), String> {
+    let (fi, lo, hi) = anchor;
+    let what = format!("{} offsets {}..{}", files[fi].0, lo, hi);
+    match base {
+        CompileOutcome::Err(e) => {
+            let blocks = parse_diag(e).ok_or_else(|| format!("[diagnostic not at the injected construct] unpositioned text {}", clip(e, 80)))?;
+            match &blocks[0].loc {
+                Some((f, l, c)) => {
+                    if *f != files[fi].0 {
+                        return Err(format!("[diagnostic names the wrong file] {}:{}:{} for an error in {}", f, l, c, what));
+                    }
+                    match offset_of(&files[fi].1, *l, *c) {
+                        Some(off) if lo <= off && off <= hi => Ok(()),
+                        _ => Err(format!("[diagnostic not at the injected construct] {}:{}:{} for an error at {}", f, l, c, what)),
+                    }
+                }
+                None => Err(format!("[diagnostic not at the injected construct] no position for an error at {} ({})", what, blocks[0].msg)),
+            }
+        }
+        CompileOutcome::Ok(_) => Err("[diagnostic not at the injected construct] the erroneous program is accepted".into()),
+        CompileOutcome::Panic(p) => Err(format!("panic {}", p)),
+    }
+}
+
+fn gen_source(rng: &mut Rng, hist: &mut Hist) -> Source {
+    let seed = rng.next() >> 16;
+    let mut r = Rng::new(seed);
+    let snippet = r.chance(1, 5);
+    let (mut files, mode, mut tag) = if snippet {
+        let i = r.below(SNIPPETS.len() as u64) as usize;
+        (vec![("main.rssl".to_string(), SNIPPETS[i].to_string())], Mode::NoPipeline, format!("snippet:{}", i))
+    } else {
+        let prog = gen_program(&mut r, &GenOpts { max_resources: 4, max_helpers: 3, max_pipes: 2, allow_mesh: true, share_entries: true });
+        let o = LayoutOpts { include: r.chance(2, 3), macros: r.chance(3, 4), conditionals: r.chance(1, 2) };
+        let files = render_layout_files(&prog, &mut r, &o);
+        let mode = if prog.pipes.is_empty() || r.chance(1, 4) { Mode::NoPipeline } else { Mode::All };
+        (files, mode, format!("gen:{}", seed))
+    };
+    let kind = *r.pick(INJECT_KINDS);
+    let fi = r.below(files.len() as u64) as usize;
+    let mut clean = None;
+    let mut anchor = None;
+    if kind != "none" {
+        let before = files.clone();
+        if inject(&mut r, &mut files, fi, kind) {
+            if let Some((lo, hi)) = anchor_of(kind, &files[fi].1) {
+                clean = Some(before);
+                anchor = Some((fi, lo, hi));
+            }
+            tag.push_str(&format!(",inject:{}@{}", kind, files[fi].0));
+            hist.add(&format!("inject={}", kind));
+            hist.add(if fi == 0 { "inject-in=entry-file" } else { "inject-in=included-file" });
+        } else {
+            hist.add("inject=none(no place)");
+        }
+    } else {
+        hist.add("inject=none");
+    }
+    Source { files, mode, tag, clean, anchor }
+}
+
+// ------------------------------------------------------------------------------------------------
+// running
+// ------------------------------------------------------------------------------------------------
+
+/// line starts of a file that does not lex: not after a spliced line, not inside a block comment
+fn physical_line_starts(text: &str) -> Vec<usize> {
+    let b = text.as_bytes();
+    let mut out = vec![0usize];
+    let mut in_block = false;
+    let mut in_line = false;
+    let mut i = 0;
+    while i < b.len() {
+        if in_block {
+            if b[i..].starts_with(b"*/") {
+                in_block = false;
+                i += 2;
+                continue;
+            }
+        } else if in_line {
+            if b[i] == b'\n' {
+                let spliced = (i >= 1 && b[i - 1] == b'\\') || (i >= 2 && b[i - 1] == b'\r' && b[i - 2] == b'\\');
+                if !spliced {
+                    in_line = false;
+                    continue;
+                }
+            }
+        } else if b[i..].starts_with(b"/*") {
+            in_block = true;
+            i += 2;
+            continue;
+        } else if b[i..].starts_with(b"//") {
+            in_line = true;
+            i += 2;
+            continue;
+        } else if b[i] == b'\n' {
+            let spliced = (i >= 1 && b[i - 1] == b'\\') || (i >= 2 && b[i - 1] == b'\r' && b[i - 2] == b'\\');
+            if !spliced {
+                out.push(i + 1);
+            }
+        }
+        i += 1;
+    }
+    out
+}
+
+struct FileInfo {
+    bounds: Vec<Boundary>,
+}
+
+fn analyse(files: &Files, macros: &[String]) -> Vec<Option<FileInfo>> {
+    files
+        .iter()
+        .map(|(_, text)| lex_file(text).map(|toks| FileInfo { bounds: boundaries(text, &toks, macros) }))
+        .collect()
+}
+
+fn emit(out: &mut Out, hist: &mut Hist, r: MetaResult) {
+    hist.add(&format!("after={}", r.obs.split(' ').next().unwrap_or("")));
+    if r.failed {
+        hist.add("oracle=FAIL");
+    }
+    out.case(&r.request, &r.obs, &r.oracle);
+}
+
+fn run_source(src: &Source, tgt: Tgt, rng: &mut Rng, out: &mut Out, hist: &mut Hist, per_source: usize) {
+    let files = &src.files;
+    let mode = src.mode.clone();
+    let compile_fn = |f: &Files| compile_files(f, tgt, &mode);
+    let base = compile_fn(files);
+    let v0 = verdict(&base, files);
+    hist.add(&format!("base={}", v0.base.split(':').take(if v0.base.starts_with("err:") { 1 } else { 2 }).collect::<Vec<_>>().join(":")));
+    if let CompileOutcome::Err(e) = &base {
+        if let Some(b) = parse_diag(e) {
+            hist.add(&format!("message={}", clip(&b[0].msg, 40).chars().filter(|c| !c.is_ascii_digit()).collect::<String>()));
+            hist.add(&format!("messages-per-diagnostic={}", b.len()));
+            if let Some((f, _, _)) = &b[0].loc {
+                hist.add(&format!("diagnostic-in={}", if *f == files[0].0 { "entry-file" } else if file_index(files, f).is_some() { "included-file" } else { "other" }));
+            } else {
+                hist.add("diagnostic-in=nowhere");
+            }
+        }
+    }
+    let macros = all_fn_macros(files);
+    let info = analyse(files, &macros);
+    let prefix = format!("C14.meta\t{}\t{}\t{}", tgt.name(), mode.show(), enc_files(files));
+    // the diagnostic of an injected error names the file it was injected into and the injected construct
+    if let (Some(clean), Some(anchor)) = (&src.clean, src.anchor) {
+        if matches!(base, CompileOutcome::Ok(_)) {
+            // injected into a region that conditional compilation skips
+            hist.add("anchor-skipped=inactive-region");
+        } else if !anchor_message_matches(&src.tag, &base) {
+            // the first diagnostic is about something else (e.g. the injected #define sits in a skipped region)
+            hist.add("anchor-skipped=other-diagnostic-first");
+        } else if matches!(compile_fn(clean), CompileOutcome::Ok(_)) {
+            hist.add("anchor-case");
+            let tag = format!("{},anchor:{}:{}:{}", src.tag, anchor.0, anchor.1, anchor.2);
+            let r = run_anchor(&prefix, files, &base, anchor, &tag);
+            emit(out, hist, r);
+        }
+    }
+    let usable: Vec<usize> = (0..files.len()).filter(|i| info[*i].is_some()).collect();
+    if usable.is_empty() {
+        hist.add("source=unlexable");
+    }
+    for case in 0..per_source {
+        // unlexable files still take whole-line insertions at physical line starts
+        let fi = if usable.is_empty() || rng.chance(1, 10) { rng.below(files.len() as u64) as usize } else { *rng.pick(&usable) };
+        let text = &files[fi].1;
+        let lines_case = case % 3 == 0 || info[fi].is_none();
+        let ctx_of = |e: &Edits| describe_edits(text, e, &macros);
+        if lines_case {
+            let starts: Vec<usize> = match &info[fi] {
+                Some(inf) => inf.bounds.iter().filter(|b| b.line_start).map(|b| b.off).collect(),
+                None => physical_line_starts(text),
+            };
+            let p = *rng.pick(&starts);
+            let k = match rng.below(8) {
+                0 => 0,
+                1 => 1,
+                2 => 50,
+                _ => rng.range(1, 50) as usize,
+            };
+            let edits: Edits = vec![(p, pad_lines(rng, k))];
+            hist.add(&format!("edit=lines k={}", if k == 0 { "0".to_string() } else if k == 1 { "1".into() } else if k < 10 { "2-9".into() } else if k < 50 { "10-49".into() } else { "50".into() }));
+            hist.add(if fi == 0 { "edited=entry-file" } else { "edited=included-file" });
+            let tag = format!("{},lines:{}@{}", src.tag, k, p);
+            let r = run_meta_files(&prefix, files, fi, &edits, &tag, &compile_fn, &base, Some((p, k)), &ctx_of);
+            emit(out, hist, r);
+        } else {
+            let inf = info[fi].as_ref().unwrap();
+            let many = rng.chance(1, 6);
+            let count = if many { (inf.bounds.len() / 3).max(2) } else if rng.chance(1, 4) { 3 } else { 1 };
+            let mut idx: Vec<usize> = (0..count).map(|_| rng.below(inf.bounds.len() as u64) as usize).collect();
+            idx.sort();
+            idx.dedup();
+            let mut edits: Edits = Vec::new();
+            for i in &idx {
+                let b = &inf.bounds[*i];
+                let (class, t) = pick_trivia(rng, b);
+                hist.add(&format!("trivia={}", class));
+                hist.add(&format!("at={}", b.ctx));
+                edits.push((b.off, t));
+            }
+            hist.add(&format!("edit=trivia n={}", if edits.len() == 1 { "1".to_string() } else if edits.len() <= 3 { "2-3".into() } else { "many".into() }));
+            hist.add(if fi == 0 { "edited=entry-file" } else { "edited=included-file" });
+            let tag = format!("{},trivia:{}", src.tag, edits.len());
+            let r = run_meta_files(&prefix, files, fi, &edits, &tag, &compile_fn, &base, None, &ctx_of);
+            emit(out, hist, r);
+        }
+    }
+}
+
+// ---- SourceManager / MessagePrinter requests
+
+struct Msg {
+    text: String,
+    loc: SourceLocation,
+    note: bool,
+}
+
+impl rssl::text::CompileError for Msg {
+    fn print(&self, w: &mut rssl::text::MessagePrinter) -> std::fmt::Result {
+        let t = self.text.clone();
+        w.write_message(
+            &|f| write!(f, "{}", t),
+            self.loc,
+            if self.note { rssl::text::Severity::Note } else { rssl::text::Severity::Error },
+        )
+    }
+}
+
+fn build_manager(files: &Files) -> (SourceManager, Vec<rssl::text::FileId>) {
+    let mut sm = SourceManager::new();
+    let mut ids = Vec::new();
+    for (n, c) in files {
+        ids.push(sm.add_file(rssl::text::FileName(n.clone()), c.clone()));
+    }
+    (sm, ids)
+}
+
+fn raw_loc(raw: u32) -> SourceLocation {
+    SourceLocation::first().offset(raw)
+}
+
+fn run_locate(files: &Files, raw: u32, out: &mut Out, hist: &mut Hist) {
+    let req = format!("C14.locate\t{}\t{}", enc_files(files), raw);
+    let r = guard(|| {
+        let (sm, _) = build_manager(files);
+        let loc = raw_loc(raw);
+        let off = sm.get_file_offset_from_source_location(loc);
+        let fl = sm.get_file_location(loc);
+        let o = match off {
+            Some((id, StreamLocation(o))) => {
+                let d = format!("{:?}", id);
+                let idx: String = d.chars().filter(|c| c.is_ascii_digit()).collect();
+                format!("{}:{}", idx, o)
+            }
+            None => "none".into(),
+        };
+        format!("{} {}", o, fl)
+    });
+    // own arithmetic: the file owning the slot, then newline counting inside that file only
+    let mut want = "none <unknown>".to_string();
+    let mut base = 0u64;
+    for (i, (n, c)) in files.iter().enumerate() {
+        let slots = c.len() as u64 + 1;
+        if (raw as u64) < base + slots {
+            let off = (raw as u64 - base) as usize;
+            let (l, col) = line_col(c, off);
+            want = format!("{}:{} {}:{}:{}", i, off, n, l, col);
+            break;
+        }
+        base += slots;
+    }
+    match r {
+        Ok(obs) => {
+            hist.add(if obs.starts_with("none") { "locate=unknown" } else { "locate=known" });
+            let oracle = if obs == want { "ok".to_string() } else { format!("FAIL:[locate] real {} but the position is {}", obs, want) };
+            out.case(&req, &obs, &oracle);
+        }
+        Err(p) => out.case(&req, &format!("panic {}", p), &format!("FAIL:panic {}", p)),
+    }
+}
+
+fn run_srcloc(files: &Files, fi: usize, off: u32, out: &mut Out, hist: &mut Hist) {
+    let req = format!("C14.srcloc\t{}\t{}\t{}", enc_files(files), fi, off);
+    let r = guard(|| {
+        let (sm, ids) = build_manager(files);
+        sm.get_source_location_from_file_offset(ids[fi], StreamLocation(off)).get_raw()
+    });
+    let in_range = fi < files.len() && (off as usize) < files[fi].1.len() + 1;
+    match r {
+        Ok(raw) => {
+            hist.add("srcloc=ok");
+            let base: usize = files[..fi].iter().map(|(_, c)| c.len() + 1).sum();
+            let oracle = if in_range && raw as usize == base + off as usize { "ok".to_string() } else { format!("FAIL:[srcloc] {} for file {} offset {}", raw, fi, off) };
+            out.case(&req, &format!("ok:{}", raw), &oracle);
+        }
+        Err(_) => {
+            hist.add("srcloc=panic");
+            // the assertion is the documented contract for out-of-range offsets
+            let oracle = if in_range { "FAIL:[srcloc] panic for an offset inside the file".to_string() } else { "ok".to_string() };
+            out.case(&req, "panic", &oracle);
+        }
+    }
+}
+
+fn run_render(files: &Files, raw: u32, note: bool, msg: &str, out: &mut Out, hist: &mut Hist) {
+    use rssl::text::CompileErrorExt;
+    let req = format!("C14.render\t{}\t{}\t{}\t{}", enc_files(files), raw, if note { "note" } else { "error" }, hex(msg.as_bytes()));
+    let r = guard(|| {
+        let (sm, _) = build_manager(files);
+        let m = Msg { text: msg.to_string(), loc: raw_loc(raw), note };
+        format!("{}", m.display(&sm))
+    });
+    match r {
+        Ok(text) => {
+            // own rendering of what the property expects a diagnostic to show
+            let sev = if note { "note" } else { "error" };
+            let mut want = None;
+            let mut base = 0u64;
+            if raw == u32::MAX {
+                want = Some(format!("{}: {}\n", sev, msg));
+            } else {
+                for (n, c) in files.iter() {
+                    let slots = c.len() as u64 + 1;
+                    if (raw as u64) < base + slots {
+                        let off = (raw as u64 - base) as usize;
+                        let (l, col) = line_col(c, off);
+                        want = Some(format!("{}:{}:{}: {}: {}\n{}\n{}^\n", n, l, col, sev, msg, line_text(c, off), " ".repeat(col - 1)));
+                        break;
+                    }
+                    base += slots;
+                }
+            }
+            hist.add(if want.is_some() { "render=located-or-unlocated" } else { "render=out-of-range" });
+            let oracle = match want {
+                Some(w) if w != text => format!("FAIL:[render] got {} expected {}", clip(&text, 120), clip(&w, 120)),
+                _ => "ok".to_string(),
+            };
+            out.case(&req, &format!("ok:{}", hex(text.as_bytes())), &oracle);
+        }
+        Err(p) => {
+            hist.add("render=panic");
+            // a location in the middle of a multi-byte character cannot be shown; not a position any token has
+            out.case(&req, "panic", &format!("SKIP:panic {}", p));
+        }
+    }
+}
+
+fn random_text(rng: &mut Rng, max: u64) -> String {
+    let n = rng.below(max + 1);
+    let mut s = String::new();
+    for _ in 0..n {
+        match rng.below(12) {
+            0 | 1 | 2 => s.push('\n'),
+            3 => s.push_str("\r\n"),
+            4 => s.push('\t'),
+            5 => s.push('é'),
+            6 => s.push(' '),
+            7 => s.push('\\'),
+            _ => s.push((b'a' + rng.below(6) as u8) as char),
+        }
+    }
+    s
+}
+
+fn run_position_cases(rng: &mut Rng, n: u64, sources: &[Files], out: &mut Out, hist: &mut Hist) {
+    for i in 0..n {
+        let files: Files = if !sources.is_empty() && i % 4 == 0 {
+            sources[rng.below(sources.len() as u64) as usize].clone()
+        } else {
+            let nf = rng.below(4);
+            (0..nf).map(|k| (format!("f{}.rssl", k), random_text(rng, 24))).collect()
+        };
+        let total: u64 = files.iter().map(|(_, c)| c.len() as u64 + 1).sum();
+        let raw = match rng.below(10) {
+            0 => u32::MAX,
+            1 => total as u32,
+            2 => (total + rng.below(5)) as u32,
+            _ => rng.below(total.max(1)) as u32,
+        };
+        match rng.below(6) {
+            0 if !files.is_empty() => {
+                let fi = rng.below(files.len() as u64) as usize;
+                let off = rng.below(files[fi].1.len() as u64 + 3) as u32;
+                run_srcloc(&files, fi, off, out, hist);
+            }
+            1 | 2 => run_render(&files, raw, rng.chance(1, 3), *rng.pick(&["failed to parse source", "unknown identifier 'x'", "a: b: error: c", ""]), out, hist),
+            _ => run_locate(&files, raw, out, hist),
+        }
+    }
+}
+
+// ---- the repository's own inputs
+
+fn load_tree(root: &str) -> Files {
+    let mut out = Vec::new();
+    let mut stack = vec![std::path::PathBuf::from(root)];
+    while let Some(dir) = stack.pop() {
+        let Ok(rd) = std::fs::read_dir(&dir) else { continue };
+        let mut entries: Vec<_> = rd.filter_map(|e| e.ok()).map(|e| e.path()).collect();
+        entries.sort();
+        for p in entries {
+            if p.is_dir() {
+                stack.push(p);
+            } else if let Ok(bytes) = std::fs::read(&p) {
+                if let Ok(s) = String::from_utf8(bytes) {
+                    out.push((p.strip_prefix(root).unwrap().to_string_lossy().into_owned(), s));
+                }
+            }
+        }
+    }
+    out.sort();
+    out
+}
+
+fn normalise(path: &str) -> String {
+    let mut parts: Vec<&str> = Vec::new();
+    for p in path.split('/') {
+        match p {
+            "" | "." => {}
+            ".." => {
+                parts.pop();
+            }
+            p => parts.push(p),
+        }
+    }
+    parts.join("/")
+}
+
+/// in-memory copy of a directory with the lookup rule of `compile_util::DiskFiles`; records what was loaded
+struct TreeFiles<'a> {
+    files: &'a Files,
+    loaded: Vec<String>,
+}
+
+impl rssl::text::IncludeHandler for TreeFiles<'_> {
+    fn load(&mut self, file_name: &str, parent_name: &str) -> Result<rssl::text::FileData, rssl::text::IncludeError> {
+        let parent_dir = match parent_name.rfind('/') {
+            Some(i) => &parent_name[..i],
+            None => "",
+        };
+        for c in [normalise(&format!("{}/{}", parent_dir, file_name)), normalise(file_name)] {
+            if let Some((n, data)) = self.files.iter().find(|(n, _)| *n == c) {
+                if !self.loaded.contains(n) {
+                    self.loaded.push(n.clone());
+                }
+                return Ok(rssl::text::FileData { real_name: n.clone(), contents: data.clone() });
+            }
+        }
+        Err(rssl::text::IncludeError::FileNotFound)
+    }
+}
+
+fn compile_tree(files: &Files, entry: &str, tgt: Tgt, mode: &Mode) -> (CompileOutcome, Vec<String>) {
+    let mut loaded = Vec::new();
+    let r = guard(|| {
+        let mut inc = TreeFiles { files, loaded: Vec::new() };
+        let res = {
+            let mut args = rssl::CompileArgs::new(entry, &mut inc, tgt.target()).support_buffer_address(tgt.buffer_address());
+            match mode {
+                Mode::All => {}
+                Mode::Named(n) => args = args.pipeline_name(Some(n.as_str())),
+                Mode::NoPipeline => args = args.no_pipeline_mode(),
+            }
+            match rssl::compile(args) {
+                Ok(ps) => Ok(ps
+                    .into_iter()
+                    .map(|p| PipeOut {
+                        data: p.data,
+                        stages: p.stages.iter().map(|s| (format!("{:?}", s.stage), s.entry_point.clone(), s.thread_group_size)).collect(),
+                        metadata: format!("{:?}", p.metadata),
+                        state: format!("{:?}", p.graphics_pipeline_state),
+                    })
+                    .collect::<Vec<_>>()),
+                Err(e) => Err(format!("{}", e)),
+            }
+        };
+        (res, inc.loaded)
+    });
+    match r {
+        Ok((Ok(v), l)) => {
+            loaded = l;
+            (CompileOutcome::Ok(v), loaded)
+        }
+        Ok((Err(e), l)) => {
+            loaded = l;
+            (CompileOutcome::Err(e), loaded)
+        }
+        Err(p) => (CompileOutcome::Panic(p), loaded),
+    }
+}
+
+fn disk_mode(entry: &str) -> Mode {
+    if entry.ends_with(".rssl") { Mode::All } else { Mode::NoPipeline }
+}
+
+/// one case on a repository input; `edits == None` picks a fresh edit with `rng`
+fn run_disk(root: &str, entry: &str, tgt: Tgt, fixed: Option<(String, Edits)>, rng: &mut Rng, cases: usize, out: &mut Out, hist: &mut Hist) {
+    let files = load_tree(root);
+    let mode = disk_mode(entry);
+    let (base, loaded) = compile_tree(&files, entry, tgt, &mode);
+    hist.add(&format!("disk-base={}", verdict(&base, &files).base.split(':').next().unwrap_or("")));
+    let rel_root = root.to_string();
+    let prefix = format!("C14.disk\t{}\t{}|{}", tgt.name(), rel_root, entry);
+    let compile_fn = |f: &Files| compile_tree(f, entry, tgt, &mode).0;
+    if let Some((name, edits)) = fixed {
+        let Some(fi) = file_index(&files, &name) else { return };
+        let text = files[fi].1.clone();
+        let macros = all_fn_macros(&files);
+        let r = run_meta_files(&prefix, &files, fi, &edits, "replay", &compile_fn, &base, None, &|e| describe_edits(&text, e, &macros));
+        emit(out, hist, r);
+        return;
+    }
+    if loaded.is_empty() {
+        return;
+    }
+    let loaded_files: Files = files.iter().filter(|(n, _)| loaded.contains(n)).cloned().collect();
+    let macros = all_fn_macros(&loaded_files);
+    for case in 0..cases {
+        let name = rng.pick(&loaded).clone();
+        let fi = file_index(&files, &name).unwrap();
+        let text = files[fi].1.clone();
+        let Some(toks) = lex_file(&text) else {
+            hist.add("disk-file=unlexable");
+            continue;
+        };
+        let bs = boundaries(&text, &toks, &macros);
+        let ctx_of = |e: &Edits| describe_edits(&text, e, &macros);
+        if case % 2 == 0 {
+            let starts: Vec<usize> = bs.iter().filter(|b| b.line_start).map(|b| b.off).collect();
+            let p = *rng.pick(&starts);
+            let k = rng.range(1, 50) as usize;
+            let edits = vec![(p, pad_lines(rng, k))];
+            hist.add("disk-edit=lines");
+            let r = run_meta_files(&prefix, &files, fi, &edits, &format!("lines:{}", k), &compile_fn, &base, Some((p, k)), &ctx_of);
+            emit(out, hist, r);
+        } else {
+            let count = if rng.chance(1, 2) { 1 } else { (bs.len() / 10).clamp(2, 400) };
+            let mut idx: Vec<usize> = (0..count).map(|_| rng.below(bs.len() as u64) as usize).collect();
+            idx.sort();
+            idx.dedup();
+            let mut edits = Vec::new();
+            for i in &idx {
+                let (class, t) = pick_trivia(rng, &bs[*i]);
+                hist.add(&format!("trivia={}", class));
+                hist.add(&format!("at={}", bs[*i].ctx));
+                edits.push((bs[*i].off, t));
+            }
+            hist.add(&format!("disk-edit=trivia n={}", if edits.len() == 1 { "1" } else { "many" }));
+            let r = run_meta_files(&prefix, &files, fi, &edits, &format!("trivia:{}", edits.len()), &compile_fn, &base, None, &ctx_of);
+            emit(out, hist, r);
+        }
+    }
+}
+
+// ---- entry point
+
+fn replay(lines: Vec<String>, out: &mut Out, hist: &mut Hist) {
+    let mut rng = Rng::new(1);
+    for line in lines {
+        let f: Vec<&str> = line.split('\t').collect();
+        match f[0] {
+            "C14.locate" if f.len() == 3 => {
+                if let (Some(files), Ok(raw)) = (dec_files(f[1]), f[2].parse::<u32>()) {
+                    run_locate(&files, raw, out, hist);
+                }
+            }
+            "C14.srcloc" if f.len() == 4 => {
+                if let (Some(files), Ok(fi), Ok(off)) = (dec_files(f[1]), f[2].parse::<usize>(), f[3].parse::<u32>()) {
+                    if fi < files.len() {
+                        run_srcloc(&files, fi, off, out, hist);
+                    }
+                }
+            }
+            "C14.render" if f.len() == 5 => {
+                if let (Some(files), Ok(raw), Some(msg)) = (dec_files(f[1]), f[2].parse::<u32>(), unhex(f[4]).and_then(|b| String::from_utf8(b).ok())) {
+                    run_render(&files, raw, f[3] == "note", &msg, out, hist);
+                }
+            }
+            "C14.meta" if f.len() >= 6 => {
+                let (Some(tgt), Some(mode), Some(files), Ok(fi), Some(edits)) =
+                    (Tgt::parse(f[1]), parse_mode(f[2]), dec_files(f[3]), f[4].parse::<usize>(), dec_edits(f[5]))
+                else {
+                    continue;
+                };
+                if files.is_empty() || fi >= files.len() {
+                    continue;
+                }
+                let tag = f.get(8).copied().unwrap_or("replay");
+                let compile_fn = |fs: &Files| compile_files(fs, tgt, &mode);
+                let base = compile_fn(&files);
+                let prefix = format!("C14.meta\t{}\t{}\t{}", tgt.name(), mode.show(), enc_files(&files));
+                if let Some(a) = tag.split(',').find_map(|t| t.strip_prefix("anchor:")) {
+                    let v: Vec<usize> = a.split(':').filter_map(|x| x.parse().ok()).collect();
+                    if v.len() == 3 && v[0] < files.len() && edits.is_empty() {
+                        let r = run_anchor(&prefix, &files, &base, (v[0], v[1], v[2]), tag);
+                        emit(out, hist, r);
+                        continue;
+                    }
+                }
+                let text = files[fi].1.clone();
+                let macros = all_fn_macros(&files);
+                // whole-line insertions are judged in the property's own wording as well
+                let lines_mode = if edits.len() == 1 && (edits[0].1.is_empty() || edits[0].1.ends_with('\n')) && tag.contains("lines:") {
+                    Some((edits[0].0, edits[0].1.matches('\n').count()))
+                } else {
+                    None
+                };
+                let r = run_meta_files(&prefix, &files, fi, &edits, tag, &compile_fn, &base, lines_mode, &|e| describe_edits(&text, e, &macros));
+                emit(out, hist, r);
+            }
+            "C14.disk" if f.len() >= 5 => {
+                let (Some(tgt), Some((root, entry)), Some(edits)) = (Tgt::parse(f[1]), f[2].split_once('|'), dec_edits(f[4])) else { continue };
+                run_disk(root, entry, tgt, Some((f[3].to_string(), edits)), &mut rng, 0, out, hist);
+            }
+            _ => {}
+        }
+    }
+}
+
+pub fn run(args: &Args, out: &mut Out) {
+    let mut hist = Hist::default();
+    if let Some(lines) = args.request_lines() {
+        replay(lines, out, &mut hist);
+        out.stat(&format!("{{\"mode\":\"replay\",\"hist\":{}}}", hist.json()));
+        return;
+    }
+    let thorough = args.thorough();
+    let n_sources = args.n.unwrap_or(if thorough { 5000 } else { 500 });
+    let per_source = if thorough { 12 } else { 9 };
+    let mut rng = Rng::new(args.seed);
+    let mut sample_files: Vec<Files> = Vec::new();
+    for i in 0..n_sources {
+        let src = gen_source(&mut rng, &mut hist);
+        if sample_files.len() < 40 {
+            sample_files.push(src.files.clone());
+        }
+        let tgt = ALL_TARGETS[(i % 4) as usize];
+        hist.add(&format!("target={}", tgt.name()));
+        hist.add(&format!("files={}", src.files.len()));
+        run_source(&src, tgt, &mut rng, out, &mut hist, per_source);
+    }
+    run_position_cases(&mut rng, if thorough { 40000 } else { 3000 }, &sample_files, out, &mut hist);
+    // the repository's own inputs
+    let repo = std::env::var("VERIF_REPO").unwrap_or_else(|_| "/repo".to_string());
+    let corpus = repo_corpus(&repo);
+    let take = if thorough { corpus.len() } else { corpus.len().min(10) };
+    let step = (corpus.len() / take.max(1)).max(1);
+    let mut disk_cases = 0;
+    for (i, (root, entry)) in corpus.iter().enumerate() {
+        if i % step != 0 {
+            continue;
+        }
+        let tgt = if i % 2 == 0 { Tgt::Dx } else { Tgt::Msl };
+        run_disk(root, entry, tgt, None, &mut rng, if thorough { 6 } else { 2 }, out, &mut hist);
+        disk_cases += 1;
+    }
+    out.stat(&format!(
+        "{{\"sources\":{},\"edits_per_source\":{},\"repo_inputs\":{},\"hist\":{}}}",
+        n_sources,
+        per_source,
+        disk_cases,
+        hist.json()
+    ));
 }
